@@ -9,7 +9,9 @@ LEVEL = "exploration"
 RULE = (
     "Histories (<=40 steps; random, cache-directed 'scenario' rounds that repeat the same queries after further adds, and -- every third "
     "shard -- directed scenarios: two variable groups enumerated completely, then bridged by one constraint, then re-queried on the solver, "
-    "after simplify/split and on a branch taken before; queries with refutable extra constraints followed by the same queries without) of add / "
+    "after simplify/split and on a branch taken before; queries with refutable extra constraints followed by the same queries without; helper "
+    "children left behind by min / max / exhaustive eval of a term over unconstrained variables, a solver cached for one of those variables "
+    "alone, then a bridge to the other one and a late constraint on the first) of add / "
     "queries with and without extras / simplify / downsize / branch / split / combine / merge / blank_copy on SolverComposite (default "
     "template and track=True), over 4 four-bit variables and a Boolean whose constraints connect and disconnect variable groups in every "
     "order (single-variable constraints, bridging constraints, bridging extras, concrete true/false). Oracle: the brute-force model set "
@@ -47,7 +49,7 @@ def run_shard(shard, ctx):
         return c11.run_shard({**shard, "reuse": False}, ctx)
 
     # every third shard runs the directed scenarios (exhaust two groups, then bridge them; extras must not stick)
-    strategy = st.one_of(sm.scenario_exhaust_then_bridge(), sm.scenario_exhaust_then_bridge(), sm.scenario_extras_do_not_stick()) if shard["i"] % 3 == 2 else None
+    strategy = st.one_of(sm.scenario_exhaust_then_bridge(), sm.scenario_helper_children(), sm.scenario_extras_do_not_stick()) if shard["i"] % 3 == 2 else None
     sp.run_random(shard, ctx, GROUPS, nontrivial, strategy=strategy, extra=("scenario",) if strategy is not None else None)
 
 
